@@ -65,7 +65,8 @@ def run_c12(ctx):
         ctx.drift.append({"negotiations_disagreeing_with_I_level": nd})
         C.log("MODEL-DRIFT C12: %d negotiation(s) disagree with the I-level of FuseInit.tla" % nd)
     # binding demo
-    bad = [json.loads(json.dumps(r)) for r in rows[:300]]
+    step = max(1, len(rows) // 1500)
+    bad = [json.loads(json.dumps(r)) for r in rows[::step]]
     k = 0
     for r in bad:
         if r.get("e") == "Init" and r["k"]["major"] == "eq" and r["r"]["status"] == "ok" and r["r"]["flags"] and k == 0:
